@@ -24,8 +24,8 @@ func init() {
 		Required:      []string{"shape:unionQuery"},
 		Families: []Family{
 			witnessFamily("C11"),
-			{Name: "pairs", N: tierN(240, 2000), Run: c11Pairs},
-			{Name: "rand", N: tierN(150000, 2000000), Run: c11Random},
+			{Name: "pairs", N: tierN(240, 6000), Run: c11Pairs},
+			{Name: "rand", N: tierN(150000, 8000000), Run: c11Random},
 		},
 	})
 }
